@@ -65,6 +65,12 @@ func applySearchSingleNode(colWips map[string]*ColWip, sNode *structs.SearchNode
 		retVal = true
 	}
 
+	if sNode.AndSearchConditions == nil && sNode.OrSearchConditions == nil {
+		// nothing is required (e.g. a node with only exclusion conditions): the raw
+		// search starts from all records and removes the excluded ones
+		retVal = true
+	}
+
 	if !retVal {
 		return retVal
 	}
